@@ -6,6 +6,13 @@ package checks
 // by GraphQL subscriptions (one with a generated filter, one without). Ground truth for "what
 // was committed" is the raw block store: after every operation the new composite / collection
 // blocks are diffed out of /db/blocks. See DESIGN.md section 6, C20.
+//
+// Subscriber churn: recorders and GraphQL subscriptions are closed (Unsubscribe / context cancel)
+// and opened in the middle of a history, at quiescent points and inside bursts, while others stay.
+// Every subscriber must receive exactly the events of the commits made while it was subscribed.
+// Quiescence of the bus is established by core.BusFence (a fresh subscriber, independent of the
+// subscriptions under observation) followed by a Flush of every recorder, so that a subscriber the
+// bus has stopped serving is REPORTED (its log lacks the events) instead of being waited for.
 
 import (
 	"bytes"
@@ -37,6 +44,7 @@ type c20Params struct {
 	Filter   int      `json:"filter"`           // index into c20Filters
 	Script   []string `json:"script,omitempty"` // anchors: forced step kinds
 	Parallel bool     `json:"parallel,omitempty"`
+	Churn    bool     `json:"churn,omitempty"` // subscribers leave and join in the middle of the history
 }
 
 var c20Filters = []string{
@@ -100,6 +108,40 @@ type c20Sub struct {
 	dead   bool
 	cancel context.CancelFunc
 	done   chan struct{}
+	// churn
+	gone       bool // cancelled by the history
+	joinedMid  bool
+	othersLeft int  // other subscribers (recorders, GraphQL subscriptions) that unsubscribed while this one was open
+	leftSince  bool // ... since the last window in which this one was seen to be served
+}
+
+// c20Rec is one event-bus subscriber of the history.
+type c20Rec struct {
+	id         int
+	rc         *core.ChurnRecorder
+	pos        int  // events consumed by the window checks
+	leaving    bool // unsubscribed, last window not yet judged
+	gone       bool
+	starved    bool // reported as no longer served: not judged again
+	joinedMid  bool
+	othersLeft int
+	leftSince  bool // another subscriber unsubscribed since the last window in which this one was seen to be served
+}
+
+func (rc *c20Rec) take() []core.BusEvent {
+	evs := rc.rc.Events()
+	out := evs[rc.pos:]
+	rc.pos = len(evs)
+	return out
+}
+
+// c20Want: what one subscriber has to receive in a window when that differs from "all commits of
+// the window" (subscribers that joined or left inside a burst).
+type c20Want struct {
+	commits []c20Commit
+	// cids committed after the first time another subscriber unsubscribed inside this window while
+	// this one was subscribed (nil: nobody left inside the window)
+	afterLeave map[string]bool
 }
 
 type c20Hist struct {
@@ -110,10 +152,15 @@ type c20Hist struct {
 	n                     *core.Node
 	col                   client.Collection
 	oth                   client.Collection
-	docV                  string // schema version id of Doc
-	recs                  []*core.BusRecorder
-	rpos                  int // events of recorder 0 consumed so far
+	docV                  string    // schema version id of Doc
+	recs                  []*c20Rec // every recorder the history ever had
+	onReceive             func(e *core.BusEvent)
+	announced             map[string]bool // cids announced to the reference recorder of each window
 	subs                  []*c20Sub
+	starved               bool // a subscriber was found not to be served any more: the history ends
+	joinCount             int
+	stackBuf              []byte
+	oldDrainG             map[string]bool
 	blocks                map[string]bool
 	live, deleted, others []string
 	marker                string
@@ -133,7 +180,7 @@ func (h *c20Hist) logf(format string, a ...any) {
 }
 
 func (h *c20Hist) detail(extra map[string]any) map[string]any {
-	m := map[string]any{"config": h.p.Config, "recorders": h.p.Subs, "history": h.log}
+	m := map[string]any{"config": h.p.Config, "recorders": h.p.Subs, "history": h.log, "subscribers_now": h.subscribers()}
 	if len(h.log) > 60 {
 		m["history"] = h.log[len(h.log)-60:]
 	}
@@ -177,30 +224,163 @@ func (h *c20Hist) newCommits() []c20Commit {
 	return out
 }
 
-func (h *c20Hist) barrier() {
+func (h *c20Hist) liveRecs() []*c20Rec {
+	var out []*c20Rec
 	for _, rc := range h.recs {
-		rc.Barrier()
+		if !rc.gone && !rc.leaving {
+			out = append(out, rc)
+		}
 	}
-}
-
-// takeEvents returns the events recorder 0 received since the last call.
-func (h *c20Hist) takeEvents() []core.BusEvent {
-	evs := h.recs[0].Events()
-	out := evs[h.rpos:]
-	h.rpos = len(evs)
 	return out
 }
 
-// checkEvents: the events of one quiescent window must be in bijection (by cid) with the commits
-// found in the store for that window; docIDs must agree.
-func (h *c20Hist) checkEvents(kind, outcome string, evs []core.BusEvent, commits []c20Commit) {
-	h.r.Count("evaluations", 1)
-	h.r.Count("events_seen", int64(len(evs)))
-	h.r.Count("commits_seen", int64(len(commits)))
+func (h *c20Hist) liveSubs() []*c20Sub {
+	var out []*c20Sub
+	for _, s := range h.subs {
+		if !s.gone && !s.dead {
+			out = append(out, s)
+		}
+	}
+	return out
+}
+
+func (h *c20Hist) subscribers() []string {
+	var out []string
+	for _, rc := range h.recs {
+		st := "subscribed"
+		switch {
+		case rc.gone || rc.leaving:
+			st = "unsubscribed"
+		case rc.starved:
+			st = "subscribed, not served"
+		}
+		out = append(out, fmt.Sprintf("recorder#%d %s joined_mid_history=%v others_unsubscribed_meanwhile=%d events=%d", rc.id, st, rc.joinedMid, rc.othersLeft, rc.rc.Len()))
+	}
+	for _, s := range h.subs {
+		st := "open"
+		switch {
+		case s.gone:
+			st = "cancelled"
+		case s.dead:
+			st = "open, not served"
+		}
+		out = append(out, fmt.Sprintf("graphql:%s %s joined_mid_history=%v others_unsubscribed_meanwhile=%d", s.name, st, s.joinedMid, s.othersLeft))
+	}
+	return out
+}
+
+// barrier: every publication made so far has been pushed to the subscribers the bus knows
+// (core.BusFence, through a fresh subscriber) and every recorder still subscribed has logged what
+// it was given. Bounded by construction: it does not wait for anything that has to travel through
+// a subscription under observation.
+func (h *c20Hist) barrier() {
+	core.BusFence(h.n.DB.Events())
+	for _, rc := range h.recs {
+		if rc.gone {
+			continue
+		}
+		if rc.leaving {
+			rc.rc.WaitClosed() // the bus closes the channel when it handles the Unsubscribe, which precedes the fence
+			continue
+		}
+		rc.rc.Flush()
+	}
+}
+
+func (h *c20Hist) addRecorder(mid bool) *c20Rec {
+	rc := &c20Rec{id: len(h.recs), rc: core.NewChurnRecorder(h.n.DB.Events(), h.onReceive, event.UpdateName), joinedMid: mid}
+	h.recs = append(h.recs, rc)
+	return rc
+}
+
+// noteLeft: a subscriber has unsubscribed; everybody who stays remembers it.
+func (h *c20Hist) noteLeft() {
+	others := 0
+	for _, rc := range h.liveRecs() {
+		rc.othersLeft++
+		rc.leftSince = true
+		others++
+	}
+	for _, s := range h.liveSubs() {
+		s.othersLeft++
+		s.leftSince = true
+		others++
+	}
+	if others > 0 {
+		h.r.Count("subscriber_left_while_others_stayed", 1)
+	}
+}
+
+// checkWindow compares, for every recorder that was subscribed during (part of) the window, the
+// events it received with the commits made while it was subscribed (per: subscribers that joined
+// or left inside the window), and the recorders' sequences with each other. It returns the events
+// of the reference recorder (the longest-standing one that is subscribed for the whole window).
+func (h *c20Hist) checkWindow(kind, outcome string, commits []c20Commit, per map[*c20Rec]c20Want) (ref []core.BusEvent) {
+	var refRec *c20Rec
+	var refWant map[string]bool
+	refClean := false
+	for _, rc := range h.recs {
+		if rc.gone || rc.starved {
+			continue
+		}
+		evs := rc.take()
+		want := c20Want{commits: commits}
+		partial := false
+		if w, ok := per[rc]; ok {
+			want, partial = w, len(w.commits) != len(commits)
+		}
+		primary := refRec == nil && !partial && !rc.leaving
+		clean := h.checkEvents(rc, primary, kind, outcome, evs, want)
+		wantSet := map[string]bool{}
+		for _, c := range want.commits {
+			wantSet[c.Cid] = true
+		}
+		switch {
+		case primary:
+			refRec, ref, refWant, refClean = rc, evs, wantSet, clean
+			for _, e := range evs {
+				h.announced[e.Cid] = true
+			}
+		case refRec != nil && clean && refClean:
+			// same order at all subscribers, for the part of the window they share
+			h.r.Count("subscriber_sequence_comparisons", 1)
+			a, b := c20CidSeqIn(ref, wantSet), c20CidSeqIn(evs, refWant)
+			if a != b {
+				h.violate("event/subscribers-see-different-sequences", fmt.Sprintf("bus subscribers #%d and #%d received the events of the commits made while both were subscribed in different orders", refRec.id, rc.id),
+					map[string]any{"operation": kind, "subscriber_reference": a, "subscriber_other": b})
+			}
+		}
+		if rc.leaving {
+			rc.leaving, rc.gone = false, true
+		}
+	}
+	if refRec == nil && !h.starved {
+		panic("C20 harness: no recorder was subscribed for the whole window")
+	}
+	return ref // nil if no recorder is served any more (reported; the history ends after this window)
+}
+
+// checkEvents: the events one recorder received in one quiescent window must be in bijection (by
+// cid) with the commits found in the store for the part of the window it was subscribed for;
+// docIDs must agree. primary: this recorder's comparison is the window's evaluation (counters).
+func (h *c20Hist) checkEvents(rc *c20Rec, primary bool, kind, outcome string, evs []core.BusEvent, w c20Want) (clean bool) {
+	commits := w.commits
+	if primary {
+		h.r.Count("evaluations", 1)
+		h.r.Count("events_seen", int64(len(evs)))
+		h.r.Count("commits_seen", int64(len(commits)))
+	}
+	h.r.Count("recorder_windows", 1)
+	if rc.othersLeft > 0 && len(commits) > 0 {
+		h.r.Count("recorder_windows_after_another_subscriber_left", 1)
+	}
+	if rc.joinedMid && len(commits) > 0 {
+		h.r.Count("recorder_windows_of_mid_history_joiner", 1)
+	}
 	want := map[string]c20Commit{}
 	for _, c := range commits {
 		want[c.Cid] = c
-		if c.Collection {
+		if c.Collection && primary {
 			h.r.Count("collection_level_commits", 1)
 		}
 	}
@@ -233,24 +413,60 @@ func (h *c20Hist) checkEvents(kind, outcome string, evs []core.BusEvent, commits
 			dup = append(dup, cidS)
 		}
 	}
-	ex := map[string]any{"operation": kind, "outcome": outcome, "events": c20EventList(evs), "commits_in_store": commits}
+	sort.Strings(missing)
+	ex := map[string]any{"subscriber": fmt.Sprintf("recorder#%d", rc.id), "operation": kind, "outcome": outcome, "events": c20EventList(evs), "commits_in_store_while_subscribed": commits, "missing": missing}
 	if outcome != "success" && (len(evs) > 0 || len(commits) > 0) {
 		if len(evs) > 0 {
 			h.violate("event/for-"+outcome+"-operation", fmt.Sprintf("%s ended as %q and %d update event(s) were published (%d commits in the store)", kind, outcome, len(evs), len(commits)), ex)
-		} else {
+		} else if primary {
 			h.violate("commit/left-by-"+outcome+"-operation", fmt.Sprintf("%s ended as %q but left %d new commit block(s) in the store", kind, outcome, len(commits)), ex)
 		}
-		return
+		return false
 	}
 	if len(missing) > 0 {
-		h.violate("event/missing/"+missKind, fmt.Sprintf("%s committed %d document/collection-level commit(s) but %d have no update event (%s)", kind, len(commits), len(missing), missKind), ex)
+		// Not served any more since another subscriber unsubscribed: none of the commits made after
+		// that point (the whole window, if it left before the window) was announced to this one.
+		after := 0
+		afterMissing := 0
+		for cidS := range want {
+			if w.afterLeave == nil || w.afterLeave[cidS] {
+				after++
+				if got[cidS] == 0 {
+					afterMissing++
+				}
+			}
+		}
+		if rc.leftSince && after > 0 && afterMissing == after && afterMissing == len(missing) {
+			rc.starved, h.starved = true, true
+			h.violate("event/none-at-remaining-subscriber-after-another-unsubscribed",
+				fmt.Sprintf("bus subscriber #%d is still subscribed to update events but received none of the %d commit(s) made after another subscriber unsubscribed (%s); the bus had handled every publication (fence through a fresh subscriber) and the subscriber's buffer was drained", rc.id, afterMissing, kind), ex)
+		} else {
+			h.violate("event/missing/"+missKind, fmt.Sprintf("%s committed %d document/collection-level commit(s) while bus subscriber #%d was subscribed but %d have no update event (%s)", kind, len(commits), rc.id, len(missing), missKind), ex)
+		}
 	}
 	if len(extra) > 0 {
-		h.violate("event/without-commit", fmt.Sprintf("%s: %d update event(s) announce a cid that is not a new commit in the store", kind, len(extra)), ex)
+		h.violate("event/without-commit", fmt.Sprintf("%s: %d update event(s) at bus subscriber #%d announce a cid that is not a commit made in the store while it was subscribed", kind, len(extra), rc.id), ex)
 	}
 	if len(dup) > 0 {
 		h.violate("event/duplicate", fmt.Sprintf("%s: %d commit(s) were announced more than once", kind, len(dup)), ex)
 	}
+	clean = len(missing) == 0 && len(extra) == 0 && len(dup) == 0
+	if clean && (len(w.afterLeave) > 0 || (w.afterLeave == nil && len(commits) > 0)) {
+		rc.leftSince = false // served after the last leave
+	}
+	return clean
+}
+
+// c20CidSeqIn: the cid sequence restricted to the given set.
+func c20CidSeqIn(evs []core.BusEvent, in map[string]bool) string {
+	var sb strings.Builder
+	for _, e := range evs {
+		if in[e.Cid] {
+			sb.WriteString(e.Cid)
+			sb.WriteByte(' ')
+		}
+	}
+	return sb.String()
 }
 
 func c20EventList(evs []core.BusEvent) []string {
@@ -264,7 +480,7 @@ func c20EventList(evs []core.BusEvent) []string {
 // ---------------------------------------------------------------------------------------
 // GraphQL subscriptions
 
-func (h *c20Hist) openSub(name, filter string) {
+func (h *c20Hist) openSub(name, filter string) *c20Sub {
 	sctx, cancel := context.WithCancel(h.ctx)
 	arg := ""
 	if filter != "" {
@@ -302,38 +518,124 @@ func (h *c20Hist) openSub(name, filter string) {
 		}
 	}()
 	h.subs = append(h.subs, s)
+	return s
 }
 
 // waitMarker waits until the subscription has delivered the result for marker update `step`
 // (the subscription goroutine handles events in order, so everything before it has been handled)
 // and returns the results that arrived before the marker's.
-func (s *c20Sub) waitMarker(markerID string, step int, timeout time.Duration) (res []c20SubResult, ok bool) {
+//
+// idle=true: the marker's result has not arrived and never will, established without a clock:
+// `quiescent` (see subsQuiescent) saw, in one consistent snapshot taken after the bus had pushed
+// every publication, every subscription goroutine parked at its idle select and every reader
+// parked at its receive, and the marker is still not in the log.
+func (s *c20Sub) waitMarker(markerID string, step int, timeout time.Duration, quiescent func() bool) (res []c20SubResult, ok, idle bool) {
 	deadline := time.NewTimer(timeout)
 	defer deadline.Stop()
 	want := fmt.Sprintf("%d.5", step)
-	for {
+	find := func() bool {
 		s.mu.Lock()
+		defer s.mu.Unlock()
 		for i := s.pos; i < len(s.log); i++ {
 			for _, d := range s.log[i].Docs {
 				if d["_docID"] == markerID && fmt.Sprint(d["f"]) == want {
 					res = append([]c20SubResult(nil), s.log[s.pos:i]...)
 					s.pos = i + 1
-					s.mu.Unlock()
-					return res, true
+					return true
 				}
 			}
 		}
-		s.mu.Unlock()
+		return false
+	}
+	rest := func() []c20SubResult {
+		s.mu.Lock()
+		defer s.mu.Unlock()
+		r := append([]c20SubResult(nil), s.log[s.pos:]...)
+		s.pos = len(s.log)
+		return r
+	}
+	poll := 20 * time.Millisecond // how often to look, not a criterion
+	for {
+		if find() {
+			return res, true, false
+		}
+		tick := time.NewTimer(poll)
 		select {
 		case <-s.notify:
+			tick.Stop()
+		case <-tick.C:
+			if poll < 500*time.Millisecond {
+				poll *= 2
+			}
+			if quiescent != nil && quiescent() {
+				if find() {
+					return res, true, false
+				}
+				return rest(), false, true
+			}
 		case <-deadline.C:
-			s.mu.Lock()
-			res = append([]c20SubResult(nil), s.log[s.pos:]...)
-			s.pos = len(s.log)
-			s.mu.Unlock()
-			return res, false
+			tick.Stop()
+			return rest(), false, false
 		}
 	}
+}
+
+// subsQuiescent reports whether every GraphQL subscription of this history is at rest: in ONE
+// snapshot of all goroutines (runtime.Stack stops the world, so the snapshot is consistent) each
+// subscription goroutine of the database (handleSubscription.func1) is parked in a select of its
+// own and each reader goroutine of the harness (openSub.func1) is parked in its channel receive.
+// A subscription goroutine parked in the select that SENDS a result would have been matched with
+// its parked reader, so all of them are parked at the select that waits for the next event; a
+// goroutine parked there has an empty buffer (a send to a channel with a parked receiver hands the
+// value over and makes the receiver runnable at once). Called after the bus fence: nothing is on
+// its way to any subscription, every result produced so far is in the logs. Depends on states, not
+// on time; false = "cannot tell yet".
+func (h *c20Hist) subsQuiescent() bool {
+	if h.stackBuf == nil {
+		h.stackBuf = make([]byte, 8<<20)
+	}
+	n := runtime.Stack(h.stackBuf, true)
+	if n >= len(h.stackBuf) {
+		return false // truncated
+	}
+	h.r.Count("subscription_quiescence_snapshots", 1)
+	for _, g := range strings.Split(string(h.stackBuf[:n]), "\n\n") {
+		isSub := strings.Contains(g, ".handleSubscription.func1")
+		isReader := strings.Contains(g, ".openSub.func1")
+		if !isSub && !isReader {
+			continue
+		}
+		id := c20GoroutineID(g)
+		if h.oldSubG[id] || h.oldDrainG[id] {
+			continue
+		}
+		state, top := c20GoroutineState(g)
+		switch {
+		case isSub && state == "select" && strings.Contains(top, ".handleSubscription.func1"):
+		case isReader && state == "chan receive" && strings.Contains(top, ".openSub.func1"):
+		default:
+			return false
+		}
+	}
+	return true
+}
+
+// c20GoroutineState: the wait state of the header line and the innermost non-runtime function.
+func c20GoroutineState(g string) (state, top string) {
+	lines := strings.Split(g, "\n")
+	if i := strings.Index(lines[0], "["); i >= 0 {
+		state = lines[0][i+1:]
+		if j := strings.IndexAny(state, ",]"); j >= 0 {
+			state = state[:j]
+		}
+	}
+	for _, l := range lines[1:] {
+		if strings.HasPrefix(l, "\t") || strings.HasPrefix(l, "runtime.") || strings.HasPrefix(l, "created by") {
+			continue
+		}
+		return state, l
+	}
+	return state, ""
 }
 
 // matching returns which of the given documents currently match the filter of the
@@ -356,32 +658,49 @@ func (h *c20Hist) matching(s *c20Sub, ids []string) map[string]bool {
 	return out
 }
 
-// settleSubs: marker update, wait for it on every live subscription, compare the results of the
-// window with the committed changes of the window.
-func (h *c20Hist) settleSubs(kind, outcome string, commits []c20Commit, judge bool) {
-	if h.abort {
-		return
-	}
-	// documents of Doc changed (not deleted) in this window, each touched once by construction
-	var changed []string
-	delDocs := map[string]bool{}
-	otherTouched := false
+// c20SubWant: the committed changes of a window as one subscription has to see them.
+type c20SubWant struct {
+	commits      []c20Commit
+	changed      []string // documents of Doc changed (not deleted), each touched once by construction
+	delDocs      map[string]bool
+	otherTouched bool
+}
+
+func c20ClassifyCommits(commits []c20Commit) *c20SubWant {
+	w := &c20SubWant{commits: commits, delDocs: map[string]bool{}}
 	for _, c := range commits {
 		switch {
 		case c.Collection:
 		case c.Other:
-			otherTouched = true
+			w.otherTouched = true
 		case c.Deleted:
-			delDocs[c.DocID] = true
+			w.delDocs[c.DocID] = true
 		default:
-			changed = append(changed, c.DocID)
+			w.changed = append(w.changed, c.DocID)
 		}
 	}
+	return w
+}
+
+// settleSubs: marker update, wait for it on every live subscription, compare the results of the
+// window with the committed changes of the window (per: subscriptions opened inside the window
+// have to see the commits made after they were opened only).
+func (h *c20Hist) settleSubs(kind, outcome string, commits []c20Commit, judge bool, per map[*c20Sub][]c20Commit) {
+	if h.abort {
+		return
+	}
+	all := c20ClassifyCommits(commits)
+	wants := make([]*c20SubWant, len(h.subs))
 	expect := make([]map[string]bool, len(h.subs))
 	for j, s := range h.subs {
-		if !s.dead {
-			expect[j] = h.matching(s, changed)
+		if s.dead || s.gone {
+			continue
 		}
+		wants[j] = all
+		if c, ok := per[s]; ok {
+			wants[j] = c20ClassifyCommits(c)
+		}
+		expect[j] = h.matching(s, wants[j].changed)
 	}
 	// marker
 	h.step++
@@ -392,20 +711,22 @@ func (h *c20Hist) settleSubs(kind, outcome string, commits []c20Commit, judge bo
 	core.Must(err)
 	mc := h.newCommits()
 	h.barrier()
-	h.checkEvents("marker-update", "success", h.takeEvents(), mc)
+	h.checkWindow("marker-update", "success", mc, nil)
 
 	for j, s := range h.subs {
-		if s.dead {
+		if s.dead || s.gone {
 			continue
 		}
+		w := wants[j]
+		delDocs, otherTouched, changed := w.delDocs, w.otherTouched, w.changed
 		timeout := c20StallTimeout
 		if h.abort {
 			timeout = 2 * time.Second // another subscription has just used up the watchdog time
 		}
-		res, ok := s.waitMarker(h.marker, mstep, timeout)
+		res, ok, idle := s.waitMarker(h.marker, mstep, timeout, h.subsQuiescent)
 		blockedIn := ""
 		var stacks []string
-		for round := 0; !ok && !h.abort && round < 4; round++ {
+		for round := 0; !ok && !idle && !h.abort && round < 4; round++ {
 			// nothing after the watchdog time: deadlocked, or merely slow on a loaded machine?
 			blockedIn, stacks = h.blockedSubscription()
 			if blockedIn != "" {
@@ -413,10 +734,32 @@ func (h *c20Hist) settleSubs(kind, outcome string, commits []c20Commit, judge bo
 			}
 			h.r.Count("subscription_slow_waits", 1)
 			var more []c20SubResult
-			more, ok = s.waitMarker(h.marker, mstep, c20StallTimeout)
+			more, ok, idle = s.waitMarker(h.marker, mstep, c20StallTimeout, h.subsQuiescent)
 			res = append(res, more...)
 		}
-		ex := map[string]any{"subscription": s.name, "filter": s.filter, "operation": kind, "outcome": outcome, "commits_in_store": commits, "results": c20ResList(res)}
+		ex := map[string]any{"subscription": s.name, "filter": s.filter, "operation": kind, "outcome": outcome, "commits_in_store": w.commits, "results": c20ResList(res)}
+		if !ok && idle {
+			// logical verdict: the bus has pushed every publication (fence), this subscription's goroutine
+			// waits for its next event with an empty buffer, its reader has logged everything - and the
+			// result for the marker update, which matches every filter, is not there.
+			s.dead = true
+			h.starved = true
+			closed := false
+			select {
+			case <-s.done:
+				closed = true
+			default:
+			}
+			switch {
+			case closed:
+				h.violate("subscription/closed-without-being-cancelled", fmt.Sprintf("the result channel of GraphQL subscription %s was closed although its context was not cancelled; no result for a matching committed update (preceding operation: %s, %s)", s.name, kind, outcome), ex)
+			case s.leftSince:
+				h.violate("subscription/none-at-remaining-subscription-after-another-unsubscribed", fmt.Sprintf("GraphQL subscription %s is open and idle but delivered no result for a matching committed update made after another subscriber (GraphQL subscription or bus subscriber) had unsubscribed; preceding operation: %s (%s)", s.name, kind, outcome), ex)
+			default:
+				h.violate("subscription/idle-without-result-for-matching-change", fmt.Sprintf("GraphQL subscription %s is open and idle (empty buffer) but delivered no result for a matching committed update; preceding operation: %s (%s)", s.name, kind, outcome), ex)
+			}
+			continue
+		}
 		if !ok {
 			s.dead = true
 			h.abort = true // the bus blocks once the dead subscriber's buffer is full: stop this history
@@ -425,7 +768,7 @@ func (h *c20Hist) settleSubs(kind, outcome string, commits []c20Commit, judge bo
 				lastKind = "delete"
 			} else if otherTouched {
 				lastKind = "change-in-other-collection"
-			} else if len(commits) == 0 {
+			} else if len(w.commits) == 0 {
 				lastKind = "no-commit"
 			}
 			if stacks == nil {
@@ -440,15 +783,23 @@ func (h *c20Hist) settleSubs(kind, outcome string, commits []c20Commit, judge bo
 			continue
 		}
 		h.r.Count("subscription_windows", 1)
+		s.leftSince = false // the marker update, made after every leave so far, was delivered
+		if s.othersLeft > 0 {
+			h.r.Count("subscription_windows_after_another_subscriber_left", 1)
+		}
+		if s.joinedMid {
+			h.r.Count("subscription_windows_of_mid_history_joiner", 1)
+		}
 		got := map[string]int{}
 		errRes := 0
 		emptyRes := 0
+		judgeS := judge
 		for _, sr := range res {
 			if len(sr.Errs) > 0 {
 				if strings.Contains(strings.Join(sr.Errs, " "), core.ErrInjected.Error()) {
 					// the armed fault hit the subscription's own query (it reads through the same store)
 					h.r.Count("fault_hit_subscription_query", 1)
-					judge = false
+					judge, judgeS = false, false
 					continue
 				}
 				errRes++
@@ -462,7 +813,7 @@ func (h *c20Hist) settleSubs(kind, outcome string, commits []c20Commit, judge bo
 			}
 		}
 		h.r.Count("subscription_results", int64(len(res)))
-		if !judge {
+		if !judgeS {
 			continue
 		}
 		if errRes > 0 {
@@ -510,6 +861,9 @@ func (h *c20Hist) settleSubs(kind, outcome string, commits []c20Commit, judge bo
 		if len(dup) > 0 {
 			h.violate("subscription/result-duplicated", fmt.Sprintf("subscription %s: %d committed change(s) produced more than one result (%s)", s.name, len(dup), kind), ex)
 		}
+	}
+	if h.starved {
+		h.abort = true // subscribers are no longer served: every later window would repeat the report
 	}
 }
 
@@ -954,7 +1308,11 @@ func (h *c20Hist) refresh() {
 }
 
 func (h *c20Hist) tuple(kind, outcome string) {
-	h.tuples[fmt.Sprintf("%s|%s|%s|%d", kind, outcome, h.p.Config, h.p.Subs)] = true
+	churn := ""
+	if h.p.Churn {
+		churn = "|churn"
+	}
+	h.tuples[fmt.Sprintf("%s|%s|%s|%d%s", kind, outcome, h.p.Config, h.p.Subs, churn)] = true
 	h.r.Count("outcome:"+outcome+":"+h.p.Config, 1)
 	if outcome != "success" {
 		h.failed = true
@@ -1032,7 +1390,7 @@ func (h *c20Hist) stepSimple(kind string, fault string) bool {
 	h.tuple(kind, outcome)
 	commits := h.newCommits()
 	h.barrier()
-	h.checkEvents(kind, outcome, h.takeEvents(), commits)
+	h.checkWindow(kind, outcome, commits, nil)
 	judge := true
 	if fired && err == nil {
 		// the armed window stays open until the call has returned, the subscription goroutine reads
@@ -1040,7 +1398,7 @@ func (h *c20Hist) stepSimple(kind string, fault string) bool {
 		judge = false
 		h.r.Count("fault_hit_after_the_operation", 1)
 	}
-	h.settleSubs(kind, outcome, commits, judge)
+	h.settleSubs(kind, outcome, commits, judge, nil)
 	h.refresh()
 	return true
 }
@@ -1083,8 +1441,413 @@ func (h *c20Hist) stepBurst() bool {
 	}
 	h.r.Count("bursts", 1)
 	h.barrier()
-	evs := h.takeEvents()
-	// order: consume the event sequence group by group
+	evs := h.checkWindow("burst", "success", all, nil)
+	h.checkGroupOrder(evs, groups, all)
+	h.settleSubs("burst", "success", all, true, nil)
+	h.refresh()
+	return true
+}
+
+// ---------------------------------------------------------------------------------------
+// subscriber churn
+
+const (
+	c20MaxRecs = 5
+	c20MaxSubs = 4
+)
+
+// c20BurstChurn: bookkeeping of a burst in which subscribers leave and join between operations
+// (no barrier in between): which operations' commits each of them has to see.
+type c20BurstChurn struct {
+	groups  *[][]c20Commit
+	recFrom map[*c20Rec]int // joined when that many operations had completed
+	recTo   map[*c20Rec]int // left when that many operations had completed
+	subFrom map[*c20Sub]int
+	leaves  []int // number of operations completed at each time a subscriber left
+}
+
+// churnAction lets one subscriber leave or join. kind: leave | join | rec_leave | rec_join |
+// sub_leave | sub_join. At a quiescent point (b == nil) or inside a burst. Returns false if not
+// applicable (limits; somebody has to stay).
+//
+// A subscriber "has left" once its Unsubscribe command is queued on the bus (recorder: Close
+// returned; GraphQL subscription: its result channel was closed after the context was cancelled —
+// handleSubscription unsubscribes before closing it). A subscriber "has joined" once Subscribe
+// returned (GraphQL: once ExecRequest returned). The bus handles commands in order, so relative to
+// the caller's mutations both are exact points of the history.
+func (h *c20Hist) churnAction(kind string, b *c20BurstChurn) bool {
+	if h.abort {
+		return false
+	}
+	liveR, liveS := h.liveRecs(), h.liveSubs()
+	leaveR := liveR // recorders that may leave
+	if b != nil {
+		// inside a burst one recorder subscribed for the whole window (the reference) has to stay
+		var full, joined []*c20Rec
+		for _, rc := range liveR {
+			if _, j := b.recFrom[rc]; j {
+				joined = append(joined, rc)
+			} else {
+				full = append(full, rc)
+			}
+		}
+		if len(full) <= 1 {
+			leaveR = joined
+		}
+	}
+	var options []string
+	for _, o := range []string{"rec_leave", "sub_leave", "rec_join", "sub_join"} {
+		if kind != o && kind != strings.TrimPrefix(o, "rec_") && kind != strings.TrimPrefix(o, "sub_") {
+			continue
+		}
+		switch o {
+		case "rec_leave":
+			if len(liveR) < 2 || len(leaveR) == 0 {
+				continue
+			}
+		case "sub_leave":
+			if len(liveS) < 2 {
+				continue
+			}
+		case "rec_join":
+			if len(liveR) >= c20MaxRecs {
+				continue
+			}
+		case "sub_join":
+			if len(liveS) >= c20MaxSubs {
+				continue
+			}
+		}
+		options = append(options, o)
+	}
+	if len(options) == 0 {
+		return false
+	}
+	where := "at a quiescent point"
+	done := 0
+	if b != nil {
+		where = "inside a burst"
+		done = len(*b.groups)
+	}
+	switch act := options[h.rng.IntN(len(options))]; act {
+	case "rec_leave":
+		rc := leaveR[h.rng.IntN(len(leaveR))]
+		rc.rc.Close()
+		h.logf("CHURN recorder#%d unsubscribes %s", rc.id, where)
+		if b == nil {
+			// nothing was committed since the last window: nothing more may have been delivered
+			rc.rc.WaitClosed()
+			h.checkEvents(rc, false, "unsubscribe", "success", rc.take(), c20Want{})
+			rc.gone = true
+		} else {
+			rc.leaving = true
+			b.recTo[rc] = done
+			b.leaves = append(b.leaves, done)
+			h.r.Count("subscriber_left_inside_burst", 1)
+		}
+		h.r.Count("recorder_left_while_others_stayed", 1)
+		h.noteLeft()
+	case "sub_leave":
+		s := liveS[h.rng.IntN(len(liveS))]
+		h.logf("CHURN GraphQL subscription %s is cancelled %s", s.name, where)
+		s.cancel()
+		s.gone = true
+		if !h.waitCancelled(s, where) { // returns once handleSubscription has queued its Unsubscribe and closed the channel
+			return true
+		}
+		if b != nil {
+			b.leaves = append(b.leaves, done)
+			h.r.Count("subscriber_left_inside_burst", 1)
+		}
+		h.r.Count("graphql_subscription_cancelled_while_others_stayed", 1)
+		h.noteLeft()
+	case "rec_join":
+		rc := h.addRecorder(true)
+		h.logf("CHURN recorder#%d subscribes %s", rc.id, where)
+		if b != nil {
+			b.recFrom[rc] = done
+			h.r.Count("subscriber_joined_inside_burst", 1)
+		}
+		h.r.Count("recorder_joined_mid_history", 1)
+		h.r.Count("subscriber_joined_mid_history", 1)
+	case "sub_join":
+		h.joinCount++
+		filter := ""
+		name := fmt.Sprintf("joined%d-unfiltered", h.joinCount)
+		if h.rng.IntN(3) > 0 {
+			fi := h.rng.IntN(len(c20Filters))
+			filter = fmt.Sprintf(`{_or: [{name: {_eq: %q}}, %s]}`, c20Marker, c20Filters[fi])
+			name = fmt.Sprintf("joined%d-filter%d", h.joinCount, fi)
+		}
+		s := h.openSub(name, filter)
+		s.joinedMid = true
+		h.logf("CHURN GraphQL subscription %s (%s) is opened %s", name, filter, where)
+		if b != nil {
+			b.subFrom[s] = done
+			h.r.Count("subscriber_joined_inside_burst", 1)
+		}
+		h.r.Count("graphql_subscription_joined_mid_history", 1)
+		h.r.Count("subscriber_joined_mid_history", 1)
+	}
+	return true
+}
+
+// stepCancelRace: three GraphQL subscriptions are opened, a few documents are created back to back
+// and the three are cancelled at once, i.e. while their goroutines are evaluating the events; the
+// subscribers that stay must see every commit, the cancelled ones must unsubscribe and close.
+func (h *c20Hist) stepCancelRace() bool {
+	if h.abort {
+		return false
+	}
+	var short []*c20Sub
+	for i := 0; i < 3; i++ {
+		h.joinCount++
+		s := h.openSub(fmt.Sprintf("shortlived%d", h.joinCount), "")
+		s.joinedMid = true
+		short = append(short, s)
+		h.r.Count("graphql_subscription_joined_mid_history", 1)
+		h.r.Count("subscriber_joined_mid_history", 1)
+	}
+	for i := 0; i < 3; i++ {
+		op, _ := h.genOp("create", map[string]bool{})
+		if err := op.Run(h.ctx); err != nil {
+			panic(fmt.Sprintf("C20 generator: create was expected to succeed: %v", err))
+		}
+		h.tuple("create", "success")
+	}
+	all := h.newCommits()
+	h.logf("cancel-race: 3 subscriptions opened, 3 documents created, the 3 subscriptions cancelled at once")
+	for _, s := range short {
+		s.cancel()
+		s.gone = true
+		h.r.Count("graphql_subscription_cancelled_while_busy", 1)
+	}
+	for _, s := range short {
+		if !h.waitCancelled(s, "while it was evaluating events") {
+			return true
+		}
+		h.r.Count("graphql_subscription_cancelled_while_others_stayed", 1)
+		h.noteLeft()
+	}
+	h.barrier()
+	per := map[*c20Rec]c20Want{} // every commit of this window precedes the leave
+	for _, rc := range h.liveRecs() {
+		per[rc] = c20Want{commits: all, afterLeave: map[string]bool{}}
+	}
+	h.checkWindow("cancel-race", "success", all, per)
+	h.settleSubs("cancel-race", "success", all, true, nil)
+	h.refresh()
+	for n := 0; len(h.live) > 6 && !h.abort && n < 10; n++ {
+		h.step++
+		h.stepSimple("delete", "")
+	}
+	return true
+}
+
+// waitCancelled waits until the cancelled subscription has closed its result channel (the
+// subscription goroutine unsubscribes from the bus before it closes it). While waiting it looks, in
+// goroutine snapshots, for a subscription goroutine that can never get there: blocked in
+// sync.RWMutex.RLock inside an operation of the corekv memory store (the transient store of the
+// versioned fetcher) while another operation of that store further up its own stack holds the read
+// lock of the same mutex, and a Datastore.Close - started by the cancelled context - waits for the
+// write lock in between: a cycle, permanent by construction (no clock involved).
+// Such a subscriber stays registered on the bus for good. false: reported, the history ends.
+func (h *c20Hist) waitCancelled(s *c20Sub, where string) bool {
+	poll := 20 * time.Millisecond // how often to look, not a criterion
+	watchdog := time.Now().Add(c20StallTimeout)
+	for {
+		tick := time.NewTimer(poll)
+		select {
+		case <-s.done:
+			tick.Stop()
+			h.r.Count("subscriptions_closed_after_cancel", 1)
+			return true
+		case <-tick.C:
+			if poll < 500*time.Millisecond {
+				poll *= 2
+			}
+			op, stack := h.selfDeadlockedSubscription()
+			if op == "" {
+				if time.Now().After(watchdog) {
+					// same watchdog as for a subscription that delivers nothing: a subscription goroutine
+					// that has been blocked for minutes outside its idle select
+					watchdog = time.Now().Add(c20StallTimeout)
+					if blockedIn, stacks := h.blockedSubscription(); blockedIn != "" {
+						h.abort = true
+						h.violate("subscription/deadlocked-in/"+blockedIn, fmt.Sprintf("GraphQL subscription %s was cancelled %s but its result channel is not closed: a subscription goroutine has been blocked for minutes in %s", s.name, where, blockedIn),
+							map[string]any{"subscription": s.name, "subscription_goroutines": stacks})
+						return false
+					}
+					h.r.Count("subscription_slow_waits", 1)
+				}
+				continue
+			}
+			h.abort = true
+			h.violate("subscription/cancel-deadlocks-subscription-goroutine/recursive-read-lock-in-corekv-memory-store",
+				fmt.Sprintf("GraphQL subscription %s was cancelled %s while its goroutine was evaluating an update event: the goroutine is blocked for good in %s (it holds the read lock of the transient memory store's close mutex, requests it again, and the store's Close - started by the cancelled context - waits for the write lock in between); the subscription never unsubscribes from the event bus and never closes its result channel, the transaction it opened stays open", s.name, where, op),
+				map[string]any{"subscription": s.name, "subscription_goroutine": stack})
+			return false
+		}
+	}
+}
+
+// selfDeadlockedSubscription looks for the cycle described at waitCancelled in one snapshot.
+func (h *c20Hist) selfDeadlockedSubscription() (op, stack string) {
+	if h.stackBuf == nil {
+		h.stackBuf = make([]byte, 8<<20)
+	}
+	n := runtime.Stack(h.stackBuf, true)
+	if n >= len(h.stackBuf) {
+		return "", ""
+	}
+	gs := strings.Split(string(h.stackBuf[:n]), "\n\n")
+	closing := false
+	for _, g := range gs {
+		if st, _ := c20GoroutineState(g); st == "sync.RWMutex.Lock" && strings.Contains(g, "corekv/memory.(*Datastore).Close") {
+			closing = true
+		}
+	}
+	if !closing {
+		return "", ""
+	}
+	for _, g := range gs {
+		if !strings.Contains(g, ".handleSubscription.func1") || h.oldSubG[c20GoroutineID(g)] {
+			continue
+		}
+		st, _ := c20GoroutineState(g)
+		if st != "sync.RWMutex.RLock" {
+			continue
+		}
+		// frames of the corekv memory store on this stack, innermost first: every exported operation of
+		// that package takes the read lock of the store's close mutex for its whole duration, so two of
+		// them on one stack = the lock is requested while already held by the same goroutine
+		var frames []string
+		for _, l := range strings.Split(g, "\n")[1:] {
+			if i := strings.Index(l, "corekv/memory."); i >= 0 && !strings.HasPrefix(l, "\t") {
+				l = l[i:]
+				if j := strings.Index(l, ")."); j > 0 {
+					if k := strings.Index(l[j+2:], "("); k > 0 {
+						l = l[:j+2+k]
+					}
+				}
+				frames = append(frames, l)
+			}
+		}
+		if len(frames) < 2 {
+			continue
+		}
+		if len(g) > 6000 {
+			g = g[:6000]
+		}
+		return frames[0] + " called from " + frames[1], g
+	}
+	return "", ""
+}
+
+// stepChurnBurst: several operations back to back without a barrier, and between them subscribers
+// leave and join. Every subscriber has to receive exactly the events of the operations that
+// completed while it was subscribed, in completion order.
+func (h *c20Hist) stepChurnBurst() bool {
+	if h.abort {
+		return false
+	}
+	nops := 4 + h.rng.IntN(3)
+	var groups [][]c20Commit
+	var all []c20Commit
+	b := &c20BurstChurn{groups: &groups, recFrom: map[*c20Rec]int{}, recTo: map[*c20Rec]int{}, subFrom: map[*c20Sub]int{}}
+	exclude := map[string]bool{}
+	kinds := []string{"create", "update", "update", "delete", "create_many", "gql_create_multi", "other_create"}
+	preLeft := map[*c20Rec]bool{}
+	for _, rc := range h.liveRecs() {
+		preLeft[rc] = rc.leftSince
+	}
+	ran := 0
+	for i := 0; i < nops; i++ {
+		if ran > 0 {
+			switch x := h.rng.IntN(100); {
+			case ran == 1:
+				h.churnAction("leave", b)
+			case ran == 2:
+				h.churnAction("join", b)
+			case x < 25:
+				h.churnAction("leave", b)
+			case x < 50:
+				h.churnAction("join", b)
+			}
+		}
+		kind := kinds[h.rng.IntN(len(kinds))]
+		if i == 0 {
+			kind = "create"
+		}
+		op, ok := h.genOp(kind, exclude)
+		if !ok {
+			continue
+		}
+		err := op.Run(h.ctx)
+		h.logf("churn-burst %s %s -> %v", kind, op.Desc, err)
+		if err != nil {
+			panic(fmt.Sprintf("C20 generator: burst %s %s was expected to succeed: %v", kind, op.Desc, err))
+		}
+		if op.Multi {
+			h.multi = true
+			h.r.Count("multi_document_requests", 1)
+		}
+		cs := h.newCommits()
+		groups = append(groups, cs)
+		all = append(all, cs...)
+		h.tuple(kind, "success")
+		ran++
+	}
+	h.r.Count("churn_bursts", 1)
+	concat := func(from, to int) []c20Commit {
+		out := []c20Commit{}
+		for _, g := range groups[from:to] {
+			out = append(out, g...)
+		}
+		return out
+	}
+	perRec := map[*c20Rec]c20Want{}
+	for _, rc := range h.recs {
+		if rc.gone {
+			continue
+		}
+		from, to := 0, len(groups)
+		if f, ok := b.recFrom[rc]; ok {
+			from = f
+		}
+		if t, ok := b.recTo[rc]; ok {
+			to = t
+		}
+		w := c20Want{commits: concat(from, to)}
+		for _, l := range b.leaves { // ascending
+			if preLeft[rc] {
+				break // somebody had left before the burst already: the whole window counts
+			}
+			if l >= from && l < to {
+				w.afterLeave = map[string]bool{}
+				for _, c := range concat(l, to) {
+					w.afterLeave[c.Cid] = true
+				}
+				break
+			}
+		}
+		perRec[rc] = w
+	}
+	perSub := map[*c20Sub][]c20Commit{}
+	for s, from := range b.subFrom {
+		perSub[s] = concat(from, len(groups))
+	}
+	h.barrier()
+	evs := h.checkWindow("churn-burst", "success", all, perRec)
+	h.checkGroupOrder(evs, groups, all)
+	h.settleSubs("churn-burst", "success", all, true, perSub)
+	h.refresh()
+	return true
+}
+
+// checkGroupOrder: the event sequence must be the concatenation, in completion order, of the
+// operations' commit sets.
+func (h *c20Hist) checkGroupOrder(evs []core.BusEvent, groups [][]c20Commit, all []c20Commit) {
 	pos := 0
 	ordered := true
 	for _, g := range groups {
@@ -1104,15 +1867,11 @@ func (h *c20Hist) stepBurst() bool {
 			break
 		}
 	}
-	h.checkEvents("burst", "success", evs, all)
 	if !ordered && len(evs) == len(all) {
 		h.violate("event/order-differs-from-completion-order", "update events of sequential operations of one caller arrived in an order different from the order in which the operations completed",
 			map[string]any{"events": c20EventList(evs), "commit_groups_in_completion_order": groups})
 	}
 	h.r.Count("order_checks", 1)
-	h.settleSubs("burst", "success", all, true)
-	h.refresh()
-	return true
 }
 
 // stepTxn: explicit transaction with 1-3 operations, then commit / discard / failing commit.
@@ -1148,7 +1907,12 @@ func (h *c20Hist) stepTxn(end string) bool {
 	}
 	// nothing may be announced (or visible in the store) before the commit
 	h.barrier()
-	early := h.takeEvents()
+	var early []core.BusEvent
+	for _, rc := range h.liveRecs() {
+		if evs := rc.take(); len(evs) > 0 && early == nil {
+			early = evs
+		}
+	}
 	earlyCommits := h.newCommits()
 	if len(early) > 0 {
 		h.violate("event/before-commit", fmt.Sprintf("%d update event(s) were published while the explicit transaction was still open", len(early)),
@@ -1188,8 +1952,8 @@ func (h *c20Hist) stepTxn(end string) bool {
 	h.tuple("txn("+fmt.Sprint(ran)+")", outcome)
 	commits := h.newCommits()
 	h.barrier()
-	h.checkEvents("explicit-transaction", outcome, h.takeEvents(), commits)
-	h.settleSubs("explicit-transaction", outcome, commits, judgeTxn)
+	h.checkWindow("explicit-transaction", outcome, commits, nil)
+	h.settleSubs("explicit-transaction", outcome, commits, judgeTxn, nil)
 	h.refresh()
 	return true
 }
@@ -1218,8 +1982,8 @@ func (h *c20Hist) stepParallel() {
 	}
 	setup := h.newCommits()
 	h.barrier()
-	h.checkEvents("parallel-setup", "success", h.takeEvents(), setup)
-	h.settleSubs("parallel-setup", "success", setup, true)
+	h.checkWindow("parallel-setup", "success", setup, nil)
+	h.settleSubs("parallel-setup", "success", setup, true, nil)
 
 	plans := make([][]struct {
 		doc   string
@@ -1270,9 +2034,8 @@ func (h *c20Hist) stepParallel() {
 	h.r.Count("parallel_phases", 1)
 	commits := h.newCommits()
 	h.barrier()
-	evs := h.takeEvents()
+	evs := h.checkWindow("parallel-phase", "success", commits, nil)
 	h.logf("parallel phase: %d callers, %d commits, %d events", g, len(commits), len(evs))
-	h.checkEvents("parallel-phase", "success", evs, commits)
 	// per caller order: events of the caller's documents, in sequence, = its successful calls
 	heightOf := map[string]uint64{}
 	for _, cm := range commits {
@@ -1281,7 +2044,7 @@ func (h *c20Hist) stepParallel() {
 			heightOf[cm.Cid] = blk.Delta.GetPriority()
 		}
 	}
-	for c := 0; c < g; c++ {
+	for c := 0; c < g && !h.starved; c++ {
 		mine := map[string]bool{own[c][0]: true, own[c][1]: true}
 		var got, want []string
 		lastH := map[string]uint64{}
@@ -1308,7 +2071,7 @@ func (h *c20Hist) stepParallel() {
 		}
 	}
 	h.tuple("parallel", "success")
-	h.settleSubs("parallel-phase", "success", nil, false) // every document is touched several times: only the marker is checked here
+	h.settleSubs("parallel-phase", "success", nil, false, nil) // every document is touched several times: only the marker is checked here
 	h.refresh()
 }
 
@@ -1318,7 +2081,7 @@ func runC20(ctx context.Context, c core.Case, r *core.Rec) {
 	quietLogs()
 	var p c20Params
 	c.P(&p)
-	h := &c20Hist{ctx: ctx, p: p, r: r, rng: c.Rng(), blocks: map[string]bool{}, tuples: map[string]bool{}, origin: map[string]map[string]any{}}
+	h := &c20Hist{ctx: ctx, p: p, r: r, rng: c.Rng(), blocks: map[string]bool{}, tuples: map[string]bool{}, origin: map[string]map[string]any{}, announced: map[string]bool{}}
 	h.n = fastNode(ctx, core.NodeOpts{Fault: true})
 	defer h.n.Close()
 	_, err := h.n.DB.AddSchema(ctx, c20SDL(p.Config))
@@ -1355,17 +2118,22 @@ func runC20(ctx context.Context, c core.Case, r *core.Rec) {
 			rmu.Unlock()
 		}
 	}
+	h.onReceive = onReceive
 	for i := 0; i < p.Subs; i++ {
-		h.recs = append(h.recs, core.NewBusRecorder(h.n.DB.Events(), onReceive, event.UpdateName))
+		h.addRecorder(false)
 	}
 	defer func() {
 		for _, rc := range h.recs {
-			rc.Close()
+			rc.rc.Close()
 		}
 	}()
 	h.oldSubG = map[string]bool{}
 	for _, g := range c20Goroutines("handleSubscription") {
 		h.oldSubG[c20GoroutineID(g)] = true
+	}
+	h.oldDrainG = map[string]bool{}
+	for _, g := range c20Goroutines(".openSub.func1") {
+		h.oldDrainG[c20GoroutineID(g)] = true
 	}
 	filter := c20Filters[p.Filter%len(c20Filters)]
 	h.openSub("filtered", fmt.Sprintf(`{_or: [{name: {_eq: %q}}, %s]}`, c20Marker, filter))
@@ -1391,11 +2159,11 @@ func runC20(ctx context.Context, c core.Case, r *core.Rec) {
 	}
 	commits := h.newCommits()
 	h.barrier()
-	h.checkEvents("initial-creates", "success", h.takeEvents(), commits)
+	h.checkWindow("initial-creates", "success", commits, nil)
 	h.refresh()
 	// the first marker round also consumes the results of the initial creates (the marker's own
 	// creation matches every subscription and is accounted for as a changed document)
-	h.settleSubs("initial-creates", "success", commits, true)
+	h.settleSubs("initial-creates", "success", commits, true, nil)
 
 	steps := p.Steps
 	script := p.Script
@@ -1416,6 +2184,9 @@ func runC20(ctx context.Context, c core.Case, r *core.Rec) {
 				kind = "commitfault:" + c20SimpleKinds[h.rng.IntN(len(c20SimpleKinds))]
 			case x < 80:
 				kind = "burst"
+				if p.Churn && h.rng.IntN(2) == 0 {
+					kind = "churn_burst"
+				}
 			case x < 87:
 				kind = "txn:commit"
 			case x < 92:
@@ -1424,7 +2195,19 @@ func runC20(ctx context.Context, c core.Case, r *core.Rec) {
 				kind = "txn:failing-commit"
 			}
 		}
+		if p.Churn && len(p.Script) == 0 && h.rng.IntN(100) < 22 {
+			// a subscriber leaves or joins at a quiescent point, before the step
+			h.churnAction([]string{"leave", "join"}[h.rng.IntN(2)], nil)
+		}
 		switch {
+		case kind == "rec_join" || kind == "rec_leave" || kind == "sub_join" || kind == "sub_leave":
+			if !h.churnAction(kind, nil) {
+				h.r.Note("scripted_churn_step_not_applicable/" + kind) // the floors tell if an anchor no longer does its job
+			}
+		case kind == "churn_burst":
+			h.stepChurnBurst()
+		case kind == "cancel_race":
+			h.stepCancelRace()
 		case kind == "burst":
 			h.stepBurst()
 		case kind == "parallel":
@@ -1458,27 +2241,27 @@ func runC20(ctx context.Context, c core.Case, r *core.Rec) {
 
 	// --- end of history
 	h.barrier()
-	seq0 := c20CidSeq(h.recs[0].Events())
-	for i := 1; i < len(h.recs); i++ {
-		r.Count("subscriber_sequence_comparisons", 1)
-		if si := c20CidSeq(h.recs[i].Events()); si != seq0 {
-			h.violate("event/subscribers-see-different-sequences", fmt.Sprintf("bus subscribers 0 and %d received different event sequences", i), map[string]any{"subscriber_0": seq0, "subscriber_other": si})
-		}
+	// (the subscribers' sequences were compared window by window, for the commits made while both were subscribed)
+	received := 0
+	for _, rc := range h.recs {
+		received += rc.rc.Len()
 	}
 	if h.badReceipt > 0 {
 		var bad []string
 		sig := "event/block-not-readable-at-receipt"
-		for _, e := range h.recs[0].Events() {
-			if e.AtReceipt != nil {
-				bad = append(bad, fmt.Sprintf("doc=%q cid=%s %v", e.DocID, e.Cid, e.AtReceipt))
-				if e.AtReceipt["hash_mismatch"] != nil || e.AtReceipt["stored_bytes_differ"] != nil {
-					sig = "event/block-bytes-do-not-match-cid"
+		for _, rc := range h.recs {
+			for _, e := range rc.rc.Events() {
+				if e.AtReceipt != nil {
+					bad = append(bad, fmt.Sprintf("recorder#%d doc=%q cid=%s %v", rc.id, e.DocID, e.Cid, e.AtReceipt))
+					if e.AtReceipt["hash_mismatch"] != nil || e.AtReceipt["stored_bytes_differ"] != nil {
+						sig = "event/block-bytes-do-not-match-cid"
+					}
 				}
 			}
 		}
 		h.violate(sig, fmt.Sprintf("%d update event(s) carried a block that was not readable from the store, or whose bytes do not hash to the announced cid, when the event was received", h.badReceipt), map[string]any{"events": bad})
 	}
-	r.Count("receipt_checks", int64(len(h.recs[0].Events())*len(h.recs)))
+	r.Count("receipt_checks", int64(received))
 	// cross-check with the commits query: document-level (_C) and collection-level commits = announced cids
 	rows, err := h.n.Rows(ctx, `query { commits { cid docID fieldName } }`, "commits")
 	core.Must(err)
@@ -1488,10 +2271,7 @@ func runC20(ctx context.Context, c core.Case, r *core.Rec) {
 			inQuery[fmt.Sprint(row["cid"])] = true
 		}
 	}
-	announced := map[string]bool{}
-	for _, e := range h.recs[0].Events() {
-		announced[e.Cid] = true
-	}
+	announced := h.announced
 	var onlyQ, onlyE []string
 	for k := range inQuery {
 		if !announced[k] {
@@ -1508,6 +2288,18 @@ func runC20(ctx context.Context, c core.Case, r *core.Rec) {
 		h.violate("event/set-differs-from-commits-query", fmt.Sprintf("at the end of the history the commits query lists %d document/collection-level commits that were never announced and %d announced cids are not listed", len(onlyQ), len(onlyE)),
 			map[string]any{"only_in_commits_query": onlyQ, "only_announced": onlyE})
 	}
+	// the subscriptions that are still open are cancelled under observation (see waitCancelled)
+	open := h.liveSubs()
+	for _, sub := range open {
+		sub.cancel()
+		sub.gone = true
+	}
+	for _, sub := range open {
+		if !h.waitCancelled(sub, "at the end of the history") {
+			r.Count("histories_aborted", 1)
+			return
+		}
+	}
 	if h.failed && h.multi {
 		r.Count("nontrivial_histories", 1)
 		for t := range h.tuples {
@@ -1518,21 +2310,29 @@ func runC20(ctx context.Context, c core.Case, r *core.Rec) {
 	r.Sample(map[string]any{"params": p, "history_head": h.log[:min(len(h.log), 12)]})
 }
 
-func c20CidSeq(evs []core.BusEvent) string {
-	var sb strings.Builder
-	for _, e := range evs {
-		sb.WriteString(e.Cid)
-		sb.WriteByte(' ')
-	}
-	return sb.String()
-}
-
 func c20Cases(seed uint64, tier string) []core.Case {
 	var cs []core.Case
 	anchor := []string{"create", "create_many", "update", "gql_create_multi", "gql_multi", "other_create", "other_update", "update_filter",
 		"invalid_create_duplicate", "invalid_create_unique", "invalid_gql_multi_last_fails", "invalid_create_many_dup", "invalid_delete_missing",
 		"fault:update", "fault:create_many", "fault:gql_multi", "commitfault:update", "commitfault:create",
 		"txn:commit", "txn:discard", "txn:failing-commit", "burst", "parallel", "delete", "update", "invalid_update_deleted", "delete_filter", "gql_update_filter", "burst"}
+	// subscriber churn. Minimal: three subscribers of update events (one bus recorder, two GraphQL
+	// subscriptions); create; one GraphQL subscription is cancelled; create again: the two that stay
+	// must be notified. Long: every kind of leave / join, at quiescent points and inside bursts.
+	churnMin := []string{"create", "sub_leave", "create"}
+	churnRec := []string{"create", "rec_leave", "create"}
+	churnLong := []string{"create", "rec_join", "update", "sub_join", "create", "rec_leave", "update", "sub_leave", "create_many", "churn_burst",
+		"rec_join", "sub_join", "delete", "rec_leave", "txn:commit", "sub_leave", "burst", "churn_burst", "gql_multi", "sub_join", "other_create", "churn_burst", "update"}
+	var cancelRace []string
+	for i := 0; i < 10; i++ {
+		cancelRace = append(cancelRace, "cancel_race")
+	}
+	for _, cfg := range []string{"plain", "branchable"} {
+		cs = append(cs, core.MkCase("anchor-churn-min/"+cfg, 1, c20Params{Config: cfg, Subs: 1, Filter: 0, Script: churnMin}))
+		cs = append(cs, core.MkCase("anchor-churn-rec/"+cfg, 1, c20Params{Config: cfg, Subs: 2, Filter: 0, Script: churnRec}))
+		cs = append(cs, core.MkCase("anchor-churn/"+cfg, 1, c20Params{Config: cfg, Subs: 2, Filter: 1, Script: churnLong}))
+		cs = append(cs, core.MkCase("anchor-cancel-while-busy/"+cfg, 1, c20Params{Config: cfg, Subs: 1, Filter: 2, Script: cancelRace}))
+	}
 	for _, cfg := range []string{"plain", "branchable"} {
 		for _, k := range []int{1, 2, 4} {
 			cs = append(cs, core.MkCase("anchor/"+cfg, 1, c20Params{Config: cfg, Subs: k, Filter: 0, Script: anchor}))
@@ -1543,8 +2343,10 @@ func c20Cases(seed uint64, tier string) []core.Case {
 		n = 5000
 	}
 	rng := rand.New(rand.NewPCG(seed, 2020))
+	rngChurn := rand.New(rand.NewPCG(seed, 2021)) // separate stream: the histories without churn stay what they were
 	for i := 0; i < n; i++ {
 		p := c20Params{Config: []string{"plain", "branchable"}[rng.IntN(2)], Subs: []int{1, 2, 4}[rng.IntN(3)], Steps: 12 + rng.IntN(12), Filter: rng.IntN(len(c20Filters)), Parallel: rng.IntN(4) == 0}
+		p.Churn = rngChurn.IntN(4) != 0
 		cs = append(cs, core.MkCase("history/"+p.Config, rng.Uint64(), p))
 	}
 	return cs
@@ -1558,12 +2360,19 @@ func init() {
 		}
 	}
 	floors = append(floors, "evaluations", "events_seen", "collection_level_commits", "subscription_results", "subscription_windows", "multi_document_requests",
-		"bursts", "parallel_phases", "order_checks", "open_transaction_checks", "subscriber_sequence_comparisons", "receipt_checks", "commits_query_crosschecks", "nontrivial_histories")
+		"bursts", "parallel_phases", "order_checks", "open_transaction_checks", "subscriber_sequence_comparisons", "receipt_checks", "commits_query_crosschecks", "nontrivial_histories",
+		// subscriber churn: the oracle was applied to subscribers that stayed while another left, and to subscribers that joined later
+		"subscriber_left_while_others_stayed", "subscriber_joined_mid_history",
+		"recorder_left_while_others_stayed", "graphql_subscription_cancelled_while_others_stayed", "recorder_joined_mid_history", "graphql_subscription_joined_mid_history",
+		"recorder_windows_after_another_subscriber_left", "recorder_windows_of_mid_history_joiner",
+		"subscription_windows_after_another_subscriber_left", "subscription_windows_of_mid_history_joiner",
+		"churn_bursts", "subscriber_left_inside_burst", "subscriber_joined_inside_burst")
 	core.Register(&core.Check{
 		ID: "C20", Level: "exploration",
 		Rule: "case = one mutation history on one node (plain or @branchable collection plus a second collection) observed by k in {1,2,4} bus recorders and two GraphQL subscriptions (generated filter / none): " +
 			"creates, updates, deletes, filtered and multi-document requests, several mutations in one request, requests failing by validation, by an injected storage fault (random k) or by a failing Commit, " +
-			"explicit transactions that commit / are discarded / fail at commit, bursts without intermediate barrier, a phase with 2-3 concurrent callers. evaluations = quiescent windows compared " +
+			"explicit transactions that commit / are discarded / fail at commit, bursts without intermediate barrier, a phase with 2-3 concurrent callers; in 3 of 4 histories subscribers come and go: recorders unsubscribe and " +
+			"GraphQL subscriptions are cancelled while others stay, new ones join, at quiescent points and between the operations of a burst - every subscriber must get exactly the events of the commits made while it was subscribed. evaluations = quiescent windows compared " +
 			"(events vs new composite/collection blocks in /db/blocks). distinct = (operation kind, outcome, configuration, recorder count) seen in histories with >=1 failed or discarded operation and >=1 multi-document request.",
 		Cases:       c20Cases,
 		Run:         runC20,
@@ -1571,7 +2380,8 @@ func init() {
 		CaseTimeout: 900 * time.Second,
 		Assumptions: []string{
 			"ground truth for 'committed' = composite and collection blocks newly present in the raw block store after the operation returned (cross-checked with the commits query at the end of each history)",
-			"quiescence of the bus = a sentinel message published by the harness has been received by every recorder (single command channel); quiescence of a GraphQL subscription = the result for a marker update that matches every filter has arrived (watchdog: 90 s, extended up to 450 s while no subscription goroutine is blocked; then reported as a stalled or deadlocked subscription)",
+			"quiescence of the bus = a message published by the harness has come out at a FRESH subscriber (single command channel: every earlier publication has been pushed to the subscribers' buffers), then every recorder has drained its buffer on request (core.BusFence / ChurnRecorder.Flush) - a recorder the bus no longer serves is reported, not waited for; quiescence of a GraphQL subscription = the result for a marker update that matches every filter has arrived (watchdog: 90 s, extended up to 450 s while no subscription goroutine is blocked; then reported as a stalled or deadlocked subscription); a subscription is reported as idle-without-result without waiting when one consistent goroutine snapshot (runtime.Stack, world stopped) taken after the bus fence shows every subscription goroutine parked in its event select and every reader parked in its receive and the marker result is not there",
+			"a subscriber has left once its Unsubscribe is queued on the bus (GraphQL: result channel closed after cancel), has joined once Subscribe / ExecRequest returned; the bus handles commands in order, so both are exact points of a single caller's history",
 			"a GraphQL subscription result is expected for every non-delete document-level commit of the subscribed collection whose document matches the filter in an ordinary query right after the operation; results for delete commits are counted, not judged; every document is touched at most once per quiescent window",
 			"single caller for most of the history; the concurrent phase uses disjoint documents per caller",
 		},
